@@ -1,0 +1,34 @@
+//go:build verif
+
+package webbridge
+
+import (
+	"net/http"
+
+	"google.golang.org/grpc/metadata"
+	"google.golang.org/grpc/status"
+	"google.golang.org/protobuf/proto"
+)
+
+// Exports of unexported pure functions for the external verification harness (tag "verif" only).
+
+func VerifParseMetadataQuery(r *http.Request, param string) metadata.MD {
+	return parseMetadataQuery(r, param)
+}
+
+func VerifIsValidMetadataKey(k string) bool      { return isValidMetadataKey(k) }
+func VerifIsValidMetadataValue(v string) bool    { return isValidMetadataValue(v) }
+func VerifHeadersToMD(h http.Header) metadata.MD { return headersToMD(h) }
+
+func VerifLpmMessage(msg proto.Message) ([]byte, error) { return lpmMessage(msg) }
+func VerifLpmTrailer(md metadata.MD) []byte             { return lpmTrailer(md) }
+
+func VerifTrailerWithStatus(md metadata.MD, st *status.Status) metadata.MD {
+	return trailerWithStatus(md, st)
+}
+
+func VerifWebsocketError(err error) (uint16, string) { return websocketError(err) }
+
+func VerifErrorStatus(err error) (*status.Status, int) { return errorStatus(err) }
+
+const VerifHTTPStatusCanceled = httpStatusCanceled
